@@ -1,7 +1,7 @@
 from ..scanner import Scanner
 from ..scanner_utils import is_space, eat_quoted
 from .utils import ElementType, Chars, consume_array, is_terminator, consume_section, ident
-from .attributes import attributes, attribute_name, attribute_value, get_attribute_value
+from .attributes import attributes, attribute_name, attribute_value, eat_equals, get_attribute_value
 
 cdata_open = '<![CDATA['
 cdata_close = ']]>'
@@ -70,7 +70,7 @@ def skip_attributes(scanner: Scanner):
     while not scanner.eof():
         scanner.eat_while(is_space)
         if attribute_name(scanner):
-            if scanner.eat(Chars.Equals):
+            if eat_equals(scanner):
                 attribute_value(scanner)
         elif is_terminator(scanner.peek()):
             break
